@@ -34,6 +34,7 @@ RULE = (
     ">= 1 hit observed or >= 1 fault injected; distinct = (program shape, backend, history / fault class)."
     ' Directed histories: one function behind two cached nodes that differ in their emit name only (two graphs, one cache); list/tuple/set/frozenset/dict arguments with equal members; a size-limited backend where the oldest entry is read just before an insertion (documented LRU).'
     ' Also: pairs of DIFFERENT definitions behind otherwise identical cached nodes (referenced global / attribute / method names, parameter roles, constants, defaults, bodies of inner lambdas / functions / comprehensions, operators, closure values), with and without retrievable source, both orders, memory and disk.'
+    ' Directed: every small observer loop (limit 2-4 x threshold x listing order) with everything cached, three runs on one backend per runner.'
 )
 ASSUMPTIONS = [
     "diskcache/sqlite3/pickle/hmac behave as documented; how hypergraph uses them is in scope",
